@@ -266,7 +266,20 @@ def _inline_aliases(fn, rebound=None):
             if isinstance(x, ast.Attribute) and isinstance(x.ctx, (ast.Store, ast.Del)):
                 stored_paths.add(ast.unparse(x))
         done = False
-        for k, st in enumerate(list(fn.body)):
+        # top-level statements of the function, and - for the names the helper inliner makes - statements of nested blocks
+        # whose every read follows in the same statement list
+        cands = [(fn.body, st) for st in fn.body]
+        for parent in _own_walk(fn):
+            if isinstance(parent, (ast.FunctionDef, ast.AsyncFunctionDef, ast.ClassDef, ast.Lambda)):
+                continue
+            for fld in ('body', 'orelse', 'finalbody'):
+                lst = getattr(parent, fld, None)
+                if isinstance(lst, list) and lst and isinstance(lst[0], ast.stmt):
+                    for i_, st in enumerate(lst):
+                        if isinstance(st, ast.Assign) and len(st.targets) == 1 and isinstance(st.targets[0], ast.Name) and '__' in st.targets[0].id \
+                                and sum(_count_loads_in(s2, st.targets[0].id) for s2 in lst[i_ + 1:]) == loads.get(st.targets[0].id, 0):
+                            cands.append((lst, st))
+        for owner_list, st in cands:
             if not (isinstance(st, ast.Assign) and len(st.targets) == 1 and isinstance(st.targets[0], ast.Name)):
                 continue
             local_root = None
@@ -319,7 +332,7 @@ def _inline_aliases(fn, rebound=None):
                         return n
                     return self.generic_visit(n)
                 visit_FunctionDef = visit_AsyncFunctionDef = visit_Lambda = _scope
-            fn.body.remove(st)
+            owner_list.remove(st)
             R().generic_visit(fn)
             done = True
             break
@@ -866,6 +879,15 @@ def _reverse_then_iterate(fn):
             body = getattr(parent, fld, None)
             if not (isinstance(body, list) and body and isinstance(body[0], ast.stmt)):
                 continue
+            # yield from E   ->   for t in E: yield t      (as a statement: nothing is sent in or returned through it)
+            for k, y in enumerate(body):
+                if isinstance(y, ast.Expr) and isinstance(y.value, ast.YieldFrom):
+                    tv = f'item__yf{getattr(y, "lineno", 0)}'
+                    new = ast.For(target=ast.Name(id=tv, ctx=ast.Store()), iter=y.value.value,
+                                  body=[ast.Expr(value=ast.Yield(value=ast.Name(id=tv, ctx=ast.Load())))], orelse=[])
+                    for n_ in [new, new.target, new.body[0], new.body[0].value, new.body[0].value.value]:
+                        ast.copy_location(n_, y)
+                    body[k] = new
             # while xs: yield xs.pop()   ->   for t in reversed(xs): yield t      (xs a once-bound local not read afterwards)
             for k, w in enumerate(body):
                 if isinstance(w, ast.While) and isinstance(w.test, ast.Name) and not w.orelse and len(w.body) == 1 \
@@ -926,6 +948,127 @@ def _list_spellings(tree):
     return tree
 
 
+def _enumerate_with_start(fn):
+    """N20: `for i, T in enumerate(IT, start=S): BODY` spelt with the hand-kept counter it abbreviates (an explicit start is
+    the mark of a counter that used to be kept by hand; plain `enumerate(xs)` stays):
+
+        i read in BODY only          i = S      ; for T in IT: BODY ; i += 1
+        i read after the loop only   i = S - 1  ; for T in IT: BODY ; i += 1          (ends at S - 1 + n, enumerate's last index)
+        otherwise                    i = S - 1  ; for T in IT: i += 1 ; BODY
+
+    The first two need a body without `continue` at the loop's own level (it would skip the increment)."""
+    def own_continue(stmts):
+        for s_ in stmts:
+            if isinstance(s_, ast.Continue):
+                return True
+            if isinstance(s_, (ast.For, ast.AsyncFor, ast.While, ast.FunctionDef, ast.AsyncFunctionDef, ast.ClassDef)):
+                continue
+            for fld_ in ('body', 'orelse', 'finalbody'):
+                sub_ = getattr(s_, fld_, None)
+                if isinstance(sub_, list) and sub_ and isinstance(sub_[0], ast.stmt) and own_continue(sub_):
+                    return True
+            for h_ in getattr(s_, 'handlers', []) or []:
+                if own_continue(h_.body):
+                    return True
+        return False
+    loads, stores, declared = _name_counts(fn)
+    for parent in [fn] + [n for n in _own_walk(fn) if not isinstance(n, (ast.FunctionDef, ast.AsyncFunctionDef, ast.ClassDef, ast.Lambda))]:
+        for fld in ('body', 'orelse', 'finalbody'):
+            body = getattr(parent, fld, None)
+            if not (isinstance(body, list) and body and isinstance(body[0], ast.stmt)):
+                continue
+            k = 0
+            while k < len(body):
+                lp = body[k]
+                k += 1
+                if not (isinstance(lp, ast.For) and isinstance(lp.iter, ast.Call) and isinstance(lp.iter.func, ast.Name)
+                        and lp.iter.func.id == 'enumerate' and isinstance(lp.target, ast.Tuple) and len(lp.target.elts) == 2
+                        and isinstance(lp.target.elts[0], ast.Name) and not lp.orelse):
+                    continue
+                start = None
+                if len(lp.iter.args) == 2 and not lp.iter.keywords:
+                    start = lp.iter.args[1]
+                elif len(lp.iter.args) == 1 and len(lp.iter.keywords) == 1 and lp.iter.keywords[0].arg == 'start':
+                    start = lp.iter.keywords[0].value
+                if start is None or not isinstance(start, (ast.Name, ast.Constant, ast.Attribute)):
+                    continue
+                i = lp.target.elts[0].id
+                if i in declared or any(isinstance(x, ast.Name) and x.id == i and isinstance(x.ctx, ast.Store) for s_ in lp.body for x in ast.walk(s_)):
+                    continue
+                in_body = sum(_count_loads_in(s_, i) for s_ in lp.body)
+                after = loads.get(i, 0) - in_body
+                cont = own_continue(lp.body)
+                minus1 = ast.Constant(value=start.value - 1) if isinstance(start, ast.Constant) and isinstance(start.value, int) \
+                    else ast.BinOp(left=fast_copy(start), op=ast.Sub(), right=ast.Constant(value=1))
+                inc = ast.AugAssign(target=ast.Name(id=i, ctx=ast.Store()), op=ast.Add(), value=ast.Constant(value=1))
+                if in_body and not after and not cont:
+                    init, lp.body = fast_copy(start), lp.body + [inc]
+                elif after and not in_body and not cont:
+                    init, lp.body = minus1, lp.body + [inc]
+                else:
+                    init, lp.body = minus1, [inc] + lp.body
+                lp.target = lp.target.elts[1]
+                lp.iter = lp.iter.args[0]
+                new = ast.Assign(targets=[ast.Name(id=i, ctx=ast.Store())], value=init)
+                for x in list(ast.walk(new)) + list(ast.walk(inc)):
+                    if isinstance(x, (ast.stmt, ast.expr)):
+                        ast.copy_location(x, lp)
+                # a hand-written initialisation of the same counter right before the loop is the one the loop replaces
+                if k >= 2 and isinstance(body[k - 2], ast.Assign) and len(body[k - 2].targets) == 1 and isinstance(body[k - 2].targets[0], ast.Name) \
+                        and body[k - 2].targets[0].id == i:
+                    pass
+                body.insert(k - 1, new)
+                k += 1
+
+
+def _flag_loops(fn):
+    """N21: a loop run until a flag it computes last thing in its body
+
+        done = False                         while True:
+        while not done:             ->           BODY
+            BODY                                 if C: break
+            done = C
+
+    (also `raced = True; while raced: BODY; raced = C` with the negated exit).  The flag must be a plain local written only
+    by the initialisation and by the last statement of the body, and read only by the loop test."""
+    loads, stores, declared = _name_counts(fn)
+    for parent in [fn] + [n for n in _own_walk(fn) if not isinstance(n, (ast.FunctionDef, ast.AsyncFunctionDef, ast.ClassDef, ast.Lambda))]:
+        for fld in ('body', 'orelse', 'finalbody'):
+            body = getattr(parent, fld, None)
+            if not (isinstance(body, list) and body and isinstance(body[0], ast.stmt)):
+                continue
+            k = 1
+            while k < len(body):
+                init, w = body[k - 1], body[k]
+                k += 1
+                if not (isinstance(w, ast.While) and not w.orelse and w.body and isinstance(init, ast.Assign) and len(init.targets) == 1
+                        and isinstance(init.targets[0], ast.Name) and isinstance(init.value, ast.Constant) and isinstance(init.value.value, bool)):
+                    continue
+                flag = init.targets[0].id
+                t = w.test
+                neg = isinstance(t, ast.UnaryOp) and isinstance(t.op, ast.Not)
+                tn = t.operand if neg else t
+                if not (isinstance(tn, ast.Name) and tn.id == flag):
+                    continue
+                # `while not flag` starts from False, `while flag` from True
+                if init.value.value is not (not neg):
+                    continue
+                last = w.body[-1]
+                if not (isinstance(last, ast.Assign) and len(last.targets) == 1 and isinstance(last.targets[0], ast.Name) and last.targets[0].id == flag):
+                    continue
+                if flag in declared or stores.get(flag, 0) != 2 or loads.get(flag, 0) != 1:
+                    continue
+                if any(isinstance(x, (ast.Continue,)) for s_ in w.body for x in ast.walk(s_)):
+                    continue
+                cond = last.value if neg else _not(last.value)
+                brk = ast.copy_location(ast.If(test=cond, body=[ast.copy_location(ast.Break(), last)], orelse=[]), last)
+                w.body[-1] = brk
+                w.test = ast.copy_location(ast.Constant(value=True), w.test)
+                body.pop(k - 3 + 1) if False else None
+                body.remove(init)
+                k -= 1
+
+
 def normalize(tree, relpath=None):
     _unannotate(tree)
     _list_spellings(tree)
@@ -972,6 +1115,8 @@ def normalize(tree, relpath=None):
             _inline_aliases(n, rb)
     for n in ast.walk(tree):
         if isinstance(n, (ast.FunctionDef, ast.AsyncFunctionDef)):
+            _enumerate_with_start(n)
+            _flag_loops(n)
             _reverse_then_iterate(n)
             _copy_prop(n)
             if not os.environ.get('VERIF_NO_N14'):
